@@ -12,6 +12,10 @@ CLAIMED["C13"] = dict(cat="exploration",
    text="Seeded simulation: the same backup (and, in another batch kind, the same prune) is executed R times from scratch under different gate-release policies (FIFO, random, starve-one-role, PCT), pariter pool sizes 1-3, pack-size limits from one blob per pack upward and compression settings; the snapshot tree id and the set of reachable (type,id) blobs must agree across executions, every execution must terminate (no-progress detector), and an independent decoder checks that every blob of every stored pack is indexed and every referenced blob is indexed in a live pack.",
    ref="5 C13", note="Interleavings are explored at storage/source-call granularity plus one hook before a written pack is indexed; inside a step the threads run FIFO-serialised. Trusted: the simulator's own pack/index decoder.",
    tech="deterministic simulation: same command re-executed under many seeded schedules, differential oracle + independent store audit")
+CLAIMED["C03"] = dict(cat="fault_enumeration",
+   text="For each command kind (backup first/next, forget, prune mark/instant/delete-marked, repair index +/- read-all, repair snapshots, rewrite+forget, merge, config change + key add, copy into) on a generated pre-state: one execution under a seeded gate schedule records the write/remove log; EVERY crash prefix of that log is opened with a fresh handle and every visible snapshot is read completely (old ones compared with their model); then single storage-op failures (no effect / lost acknowledgement) are injected at up to 12/24 positions under the same schedule: the command must return Err, never Ok, panic or hang, and the resulting states must satisfy the same oracle. Exhaustive over prefixes of each explored log; sampled over inputs, schedules and configs.",
+   ref="5 C03", note="Storage ops are atomic in SimStore; the log is one observed linearisation per run of the concurrent writers (different schedules give different ones). instant-delete+early-delete-index and hot/cold are excluded as the property says.",
+   tech="deterministic simulation: op-log crash-prefix enumeration + single-fault re-execution under the recorded schedule")
 NOT_YET = {}
 NA = {
  "C09": "pure function of its arguments (snapshot list, keep options, explicit 'now'): no schedule, clock read, I/O, fault or history for a simulator to own; see DESIGN.md section 6",
